@@ -8,128 +8,433 @@ import (
 
 var bucketTables = []string{"transactions", "accounts", "accounts_volumes", "moves", "logs", "accounts_metadata", "transactions_metadata", "schemas"}
 
+func isBucketTable(s string) bool {
+	for _, t := range bucketTables {
+		if t == s {
+			return true
+		}
+	}
+	return false
+}
+
+// Problem kinds reported by ScanScopedReport.
+const (
+	ProblemNoPredicate = "no-ledger-predicate" // the scope never mentions ledger = '<name>'
+	ProblemDisjunct    = "unscoped-disjunct"   // it does, but some OR branch of the condition escapes it
+	ProblemInsert      = "insert"              // an insert does not write the store's ledger
+	ProblemUnparsable  = "unparsable-condition"
+)
+
+type ScanProblem struct {
+	Kind string
+	Text string
+}
+
+// ScanReport is the result of scanning one statement.
+type ScanReport struct {
+	Problems []ScanProblem
+	// Relations = bucket-table references examined (insert targets included)
+	Relations int
+	// Conditions = WHERE / inner-join ON conditions parsed into a boolean tree
+	Conditions int
+	// OrBranches = OR branches each of which had to imply the ledger predicate
+	OrBranches int
+	// DisjunctShapes = boolean skeletons (L = ledger predicate, x = other atom) of the
+	// conditions in which the ledger predicate sits below an OR
+	DisjunctShapes []string
+}
+
+func (r ScanReport) Texts() []string {
+	var out []string
+	for _, p := range r.Problems {
+		out = append(out, p.Text)
+	}
+	return out
+}
+
 // ScanScoped checks one statement emitted by a store of ledger `name` in bucket
 // `bucket`: every (sub)select / update / delete scope that references a bucket
 // table must constrain `ledger = '<name>'`, every insert must write that ledger.
 // It returns human-readable problems (empty = scoped).
 func ScanScoped(sql, bucket, name string) []string {
-	var problems []string
-	// positions of paren open/close outside string literals
-	n := len(sql)
-	depthAt := make([]int, n+1)
-	open := []int{}
-	match := map[int]int{} // open -> close
-	parent := map[int]int{}
-	inStr := false
-	d := 0
-	for i := 0; i < n; i++ {
-		ch := sql[i]
-		depthAt[i] = d
-		if ch == '\'' {
-			if inStr && i+1 < n && sql[i+1] == '\'' {
-				depthAt[i+1] = d
-				i++
-				continue
-			}
-			inStr = !inStr
-			continue
-		}
-		if inStr {
-			continue
-		}
-		if ch == '(' {
-			if len(open) > 0 {
-				parent[i] = open[len(open)-1]
-			} else {
-				parent[i] = -1
-			}
-			open = append(open, i)
-			d++
-		} else if ch == ')' && len(open) > 0 {
-			match[open[len(open)-1]] = i
-			open = open[:len(open)-1]
-			d--
+	return ScanScopedReport(sql, bucket, name).Texts()
+}
+
+// ScanScopedReport is the structural version. A scope is one (sub)query: the statement or a
+// parenthesised group starting with SELECT / WITH / INSERT / UPDATE / DELETE / VALUES, with
+// nested subqueries collapsed, cut at set operators (UNION …). For every bucket table
+// referenced as a relation in a scope, the scope's WHERE condition (or the ON condition of
+// an inner join of that scope) is parsed with the SQL precedence NOT > AND > OR and must
+// IMPLY `ledger = '<name>'`: an OR node implies it when every branch does, an AND node when
+// some operand does, NOT never does.
+func ScanScopedReport(sql, bucket, name string) ScanReport {
+	var rep ScanReport
+	toks := lexSQL(sql)
+	match := make([]int, len(toks))
+	for i := range match {
+		match[i] = -1
+	}
+	var stack []int
+	for i, t := range toks {
+		if t.kind == tkLP {
+			stack = append(stack, i)
+		} else if t.kind == tkRP && len(stack) > 0 {
+			match[stack[len(stack)-1]] = i
+			stack = stack[:len(stack)-1]
 		}
 	}
-	isSubquery := func(o int) bool {
-		c, ok := match[o]
-		if !ok {
+	isSub := func(i int) bool {
+		if toks[i].kind != tkLP || match[i] < 0 || i+1 >= len(toks) {
 			return false
 		}
-		inner := strings.TrimSpace(sql[o+1 : c])
-		up := strings.ToUpper(inner)
-		return strings.HasPrefix(up, "SELECT") || strings.HasPrefix(up, "WITH") || strings.HasPrefix(up, "INSERT") || strings.HasPrefix(up, "UPDATE") || strings.HasPrefix(up, "DELETE") || strings.HasPrefix(up, "VALUES")
-	}
-	// enclosing scope of position p: innermost subquery paren group containing p, or whole statement
-	scopeOf := func(p int) (int, int) {
-		best, bestEnd := -1, n
-		for o, c := range match {
-			if o < p && p < c && isSubquery(o) && o > best {
-				best, bestEnd = o, c
+		for _, kw := range []string{"SELECT", "WITH", "INSERT", "UPDATE", "DELETE", "VALUES"} {
+			if toks[i+1].isWord(kw) {
+				return true
 			}
 		}
-		return best + 1, bestEnd
+		return false
 	}
-	// scope text with nested subqueries blanked
-	scopeText := func(s, e int) string {
+	// collapsed token list of the scope [from, to)
+	collapse := func(from, to int) []sqlTok {
+		var out []sqlTok
+		for i := from; i < to; i++ {
+			if toks[i].kind == tkLP && isSub(i) && match[i] < to {
+				out = append(out, sqlTok{kind: tkSub, text: "(…)", pos: toks[i].pos, end: toks[match[i]].end, sub: i})
+				i = match[i]
+				continue
+			}
+			out = append(out, toks[i])
+		}
+		return out
+	}
+	srcText := func(ts []sqlTok) string {
 		var b strings.Builder
-		i := s
-		for i < e {
-			if sql[i] == '(' {
-				if c, ok := match[i]; ok && isSubquery(i) && c <= e {
-					b.WriteString("(…)")
-					i = c + 1
-					continue
+		for i, t := range ts {
+			if i > 0 {
+				if gap := sql[ts[i-1].end:t.pos]; gap != "" {
+					b.WriteByte(' ')
 				}
 			}
-			b.WriteByte(sql[i])
-			i++
+			if t.kind == tkSub {
+				b.WriteString("(…)")
+			} else {
+				b.WriteString(sql[t.pos:t.end])
+			}
 		}
 		return b.String()
 	}
-	qb := regexp.QuoteMeta(bucket)
-	qn := regexp.QuoteMeta(strings.ReplaceAll(name, "'", "''"))
-	reTable := regexp.MustCompile(`"` + qb + `"\."?(` + strings.Join(bucketTables, "|") + `)"?\b`)
-	reScoped := regexp.MustCompile(`(?i)(?:\b\w+\.|"\w+"\.)?"?ledger"?\s*(?:=\s*'` + qn + `'|IN\s*\(\s*'` + qn + `'\s*\))`)
-	seenScope := map[int]bool{}
-	for _, loc := range reTable.FindAllStringIndex(sql, -1) {
-		// skip occurrences inside string literals (e.g. sequence names in nextval('...'))
-		if inLiteral(sql, loc[0]) {
+	type scope struct{ from, to int }
+	scopes := []scope{{0, len(toks)}}
+	for i := range toks {
+		if isSub(i) {
+			scopes = append(scopes, scope{i + 1, match[i]})
+		}
+	}
+	for _, sc := range scopes {
+		ts := collapse(sc.from, sc.to)
+		// segments at depth-0 set operators
+		var segs [][]sqlTok
+		depth, start := 0, 0
+		for i, t := range ts {
+			switch {
+			case t.kind == tkLP:
+				depth++
+			case t.kind == tkRP:
+				depth--
+			case depth == 0 && (t.isWord("UNION") || t.isWord("INTERSECT") || t.isWord("EXCEPT")):
+				segs = append(segs, ts[start:i])
+				start = i + 1
+			}
+		}
+		segs = append(segs, ts[start:])
+		for _, seg := range segs {
+			scanSegment(&rep, seg, srcText, bucket, name)
+		}
+	}
+	return rep
+}
+
+type relRef struct {
+	idx    int // index of the bucket identifier token in the segment
+	table  string
+	alias  string
+	insert bool
+}
+
+var aliasStop = map[string]bool{"SET": true, "WHERE": true, "JOIN": true, "LEFT": true, "RIGHT": true, "FULL": true, "INNER": true, "CROSS": true, "NATURAL": true, "ON": true, "USING": true, "GROUP": true, "ORDER": true, "LIMIT": true, "OFFSET": true, "FOR": true, "RETURNING": true, "HAVING": true, "WINDOW": true, "FETCH": true, "VALUES": true, "SELECT": true, "DEFAULT": true, "LATERAL": true}
+
+func scanSegment(rep *ScanReport, seg []sqlTok, srcText func([]sqlTok) string, bucket, name string) {
+	var refs []relRef
+	for i := 0; i+2 < len(seg); i++ {
+		if !(seg[i].kind == tkIdent && seg[i].text == bucket) || !(seg[i+1].kind == tkSym && seg[i+1].text == ".") {
 			continue
 		}
-		// only relation references count: FROM / JOIN / UPDATE / INTO <table>, not qualified columns
-		if loc[1] < len(sql) && sql[loc[1]] == '.' {
+		tt := seg[i+2]
+		if (tt.kind != tkWord && tt.kind != tkIdent) || !isBucketTable(tt.text) {
 			continue
 		}
-		before := strings.ToUpper(strings.TrimRight(sql[:loc[0]], " \t\n\r"))
+		if i+3 < len(seg) && seg[i+3].kind == tkSym && seg[i+3].text == "." {
+			continue // qualified column "b".table.col
+		}
+		if i == 0 {
+			continue
+		}
+		prev := seg[i-1]
 		isRel := false
-		for _, kw := range []string{"FROM", "JOIN", "UPDATE", "INTO", ","} {
-			if strings.HasSuffix(before, kw) {
+		for _, kw := range []string{"FROM", "JOIN", "UPDATE", "INTO", "ONLY", "LATERAL", "USING"} {
+			if prev.isWord(kw) {
 				isRel = true
 			}
+		}
+		if prev.kind == tkSym && prev.text == "," {
+			isRel = true
 		}
 		if !isRel {
 			continue
 		}
-		s, e := scopeOf(loc[0])
-		if seenScope[s] {
+		r := relRef{idx: i, table: tt.text, insert: prev.isWord("INTO")}
+		j := i + 3
+		if j < len(seg) && seg[j].isWord("AS") {
+			j++
+		}
+		if j < len(seg) && (seg[j].kind == tkIdent || (seg[j].kind == tkWord && !aliasStop[strings.ToUpper(seg[j].text)])) {
+			r.alias = seg[j].text
+		}
+		refs = append(refs, r)
+	}
+	if len(refs) == 0 {
+		return
+	}
+	// conditions of the segment: WHERE, and ON of inner joins
+	type cond struct {
+		what string
+		toks []sqlTok
+	}
+	var conds []cond
+	if w, _, ok := topLevelClause(seg, 0, "WHERE", whereTerminators); ok && len(w) > 0 {
+		conds = append(conds, cond{"WHERE", w})
+	}
+	depth := 0
+	for i := 0; i < len(seg); i++ {
+		t := seg[i]
+		if t.kind == tkLP {
+			depth++
+		} else if t.kind == tkRP {
+			depth--
+		}
+		if depth != 0 || !t.isWord("JOIN") {
 			continue
 		}
-		seenScope[s] = true
-		txt := scopeText(s, e)
-		up := strings.ToUpper(strings.TrimSpace(txt))
-		table := sql[loc[0]:loc[1]]
-		if strings.HasPrefix(up, "INSERT") {
-			if p := checkInsert(txt, name); p != "" {
-				problems = append(problems, fmt.Sprintf("insert into %s: %s", table, p))
+		outer := false
+		for k := i - 1; k >= 0 && k >= i-2; k-- {
+			if seg[k].isWord("LEFT") || seg[k].isWord("RIGHT") || seg[k].isWord("FULL") {
+				outer = true
+			}
+		}
+		if outer {
+			continue
+		}
+		// the ON of THIS join: first depth-0 ON before the next join / clause keyword
+		d2, onAt := 0, -1
+	find:
+		for k := i + 1; k < len(seg); k++ {
+			switch {
+			case seg[k].kind == tkLP:
+				d2++
+			case seg[k].kind == tkRP:
+				d2--
+				if d2 < 0 {
+					break find
+				}
+			case d2 != 0 || seg[k].kind != tkWord:
+			case seg[k].isWord("ON"):
+				onAt = k
+				break find
+			case seg[k].isWord("JOIN") || seg[k].isWord("WHERE") || seg[k].isWord("GROUP") || seg[k].isWord("ORDER") || seg[k].isWord("LIMIT") || seg[k].isWord("USING"):
+				break find
+			}
+		}
+		if onAt < 0 {
+			continue
+		}
+		if on, _, ok := topLevelClause(seg, onAt, "ON", whereTerminators); ok && len(on) > 0 {
+			conds = append(conds, cond{"ON", on})
+		}
+	}
+	type parsed struct {
+		what string
+		n    *boolNode
+		err  error
+	}
+	var trees []parsed
+	for _, c := range conds {
+		n, err := parseBool(c.toks)
+		trees = append(trees, parsed{c.what, n, err})
+		if err == nil {
+			rep.Conditions++
+		}
+	}
+	for _, r := range refs {
+		rep.Relations++
+		table := `"` + bucket + `".` + r.table
+		if r.insert {
+			// text from INSERT on
+			k := r.idx
+			for k > 0 && !seg[k].isWord("INSERT") {
+				k--
+			}
+			if p := checkInsert(srcText(seg[k:]), name); p != "" {
+				rep.Problems = append(rep.Problems, ScanProblem{ProblemInsert, fmt.Sprintf("insert into %s: %s", table, p)})
 			}
 			continue
 		}
-		if !reScoped.MatchString(txt) {
-			problems = append(problems, fmt.Sprintf("scope referencing %s does not constrain ledger = '%s': %s", table, name, trunc(txt, 300)))
+		quals := map[string]bool{"": true, strings.ToLower(r.table): true}
+		if r.alias != "" {
+			quals[strings.ToLower(r.alias)] = true
+		}
+		implied, mentioned, unparsable := false, false, false
+		for _, t := range trees {
+			if t.err != nil {
+				unparsable = true
+				continue
+			}
+			ok, m, branches := implies(t.n, name, quals)
+			rep.OrBranches += branches
+			if m {
+				mentioned = true
+				if sh := t.n.shape(func(a *boolNode) string {
+					if _, is := ledgerPred(a.atom, name); is {
+						return "L"
+					}
+					return "x"
+				}); ledgerUnderOr(t.n, name, false) {
+					rep.DisjunctShapes = append(rep.DisjunctShapes, compressShape(sh))
+				}
+			}
+			if ok {
+				implied = true
+			}
+		}
+		if implied {
+			continue
+		}
+		txt := trunc(srcText(seg), 400)
+		switch {
+		case mentioned:
+			rep.Problems = append(rep.Problems, ScanProblem{ProblemDisjunct, fmt.Sprintf("scope referencing %s mentions ledger = '%s' but the condition does not imply it (AND binds tighter than OR: some OR branch is not restricted to the ledger): %s", table, name, txt)})
+		case unparsable:
+			rep.Problems = append(rep.Problems, ScanProblem{ProblemUnparsable, fmt.Sprintf("scope referencing %s: condition could not be parsed: %s", table, txt)})
+		default:
+			rep.Problems = append(rep.Problems, ScanProblem{ProblemNoPredicate, fmt.Sprintf("scope referencing %s does not constrain ledger = '%s': %s", table, name, txt)})
 		}
 	}
-	return problems
+}
+
+// ledgerPred recognises  [q.]ledger = '<name>'  |  '<name>' = [q.]ledger  |  [q.]ledger IN ('<name>')
+// (optional ::casts) and returns the qualifier (lower case, "" when none).
+func ledgerPred(atom []sqlTok, name string) (string, bool) {
+	var ts []sqlTok
+	for i := 0; i < len(atom); i++ {
+		if atom[i].kind == tkSym && atom[i].text == "::" && i+1 < len(atom) {
+			i++
+			continue
+		}
+		ts = append(ts, atom[i])
+	}
+	isLit := func(t sqlTok) bool { return t.kind == tkStr && t.text == name }
+	// '<name>' = col  → col = '<name>'
+	if len(ts) >= 3 && isLit(ts[0]) && ts[1].kind == tkSym && ts[1].text == "=" {
+		ts = append(append([]sqlTok{}, ts[2:]...), ts[1], ts[0])
+	}
+	qual := ""
+	if len(ts) >= 3 && (ts[0].kind == tkWord || ts[0].kind == tkIdent) && ts[1].kind == tkSym && ts[1].text == "." {
+		qual = strings.ToLower(ts[0].text)
+		ts = ts[2:]
+	}
+	if len(ts) < 3 || !((ts[0].kind == tkWord || ts[0].kind == tkIdent) && strings.EqualFold(ts[0].text, "ledger")) {
+		return "", false
+	}
+	if len(ts) == 3 && ts[1].kind == tkSym && ts[1].text == "=" && isLit(ts[2]) {
+		return qual, true
+	}
+	if len(ts) == 5 && ts[1].isWord("IN") && ts[2].kind == tkLP && isLit(ts[3]) && ts[4].kind == tkRP {
+		return qual, true
+	}
+	return "", false
+}
+
+// implies: does the condition imply ledger = '<name>' (for one of the accepted qualifiers)?
+// mentioned: some atom is such a predicate. branches: OR branches examined.
+func implies(n *boolNode, name string, quals map[string]bool) (ok, mentioned bool, branches int) {
+	switch n.op {
+	case "atom":
+		q, is := ledgerPred(n.atom, name)
+		return is && quals[q], is, 0
+	case "not":
+		_, m, b := implies(n.kids[0], name, quals)
+		return false, m, b
+	case "and":
+		for _, k := range n.kids {
+			o, m, b := implies(k, name, quals)
+			ok = ok || o
+			mentioned = mentioned || m
+			branches += b
+		}
+		return
+	default: // or
+		ok = true
+		for _, k := range n.kids {
+			o, m, b := implies(k, name, quals)
+			ok = ok && o
+			mentioned = mentioned || m
+			branches += b + 1
+		}
+		return
+	}
+}
+
+func ledgerUnderOr(n *boolNode, name string, under bool) bool {
+	switch n.op {
+	case "atom":
+		_, is := ledgerPred(n.atom, name)
+		return is && under
+	case "or":
+		under = true
+	}
+	for _, k := range n.kids {
+		if ledgerUnderOr(k, name, under) {
+			return true
+		}
+	}
+	return false
+}
+
+var reShapeRun = regexp.MustCompile(`x(&x)+`)
+
+// compressShape makes skeletons independent of the number of non-ledger conjuncts.
+func compressShape(s string) string {
+	s = reShapeRun.ReplaceAllString(s, "x+")
+	// collapse repeated identical OR branches: A|A|A → A|…
+	for {
+		changed := false
+		parts := strings.Split(s, "|")
+		var out []string
+		for i, p := range parts {
+			if i >= 2 && parts[i-1] == p && parts[i-2] == p {
+				changed = true
+				continue
+			}
+			out = append(out, p)
+		}
+		s = strings.Join(out, "|")
+		if !changed {
+			break
+		}
+	}
+	if len(s) > 120 {
+		s = s[:120] + "…"
+	}
+	return s
 }
 
 func trunc(s string, n int) string {
